@@ -57,16 +57,17 @@ def design_level(thorough, res):
     """Runs in a thread next to the real-time part; stores into res (errors are re-raised by the caller)."""
     try:
         states = trans = 0
-        cfgs = ["Timing_exh.cfg", "Timing_lazy.cfg"] + (["Timing_exh4.cfg", "Timing_lazy2.cfg", "Timing_lazy22.cfg"] if thorough else [])
+        cfgs = ["Timing_exh.cfg", "Timing_lazy.cfg"] + (["Timing_exh4.cfg", "Timing_lazy2.cfg", "Timing_lazy22.cfg", "Timing_exh3i.cfg"] if thorough else [])
         per, runs = {}, {}
 
         def one(cfg):
             runs[cfg] = vlib.tlc("TimingMC", cfg, deadlock=False, timeout=3000, workers=6, heap="8g" if thorough else "4g")
         # the two large configurations of the thorough tier run next to the small ones
-        big = [threading.Thread(target=one, args=(c,)) for c in cfgs if c in ("Timing_lazy2.cfg", "Timing_lazy22.cfg")]
+        BIG = ("Timing_lazy2.cfg", "Timing_lazy22.cfg", "Timing_exh3i.cfg")
+        big = [threading.Thread(target=one, args=(c,)) for c in cfgs if c in BIG]
         [t.start() for t in big]
         for cfg in cfgs:
-            if cfg not in ("Timing_lazy2.cfg", "Timing_lazy22.cfg"):
+            if cfg not in BIG:
                 one(cfg)
         [t.join() for t in big]
         for cfg in cfgs:
@@ -106,7 +107,12 @@ def scripts_from_tlc(n_walks, n_pick, first_id=1, cfg="Timing_sim.cfg"):
         nd = sum(1 for e in h if e["d"] == "discard")
         late = sum(1 for e in h if e["d"] == "fire" and e["b"] > e["tok"])
         flipped = sum(1 for e in h if e["a"] - e["tok"] < 20 <= e["b"] - e["tok"])   # only interesting for lazy scripts
-        return (min(flipped, 1) * 2 + min(nd, 1) + min(late, 1), flipped, nd + late)
+        byi = {}
+        for e in h:
+            byi.setdefault(e["i"], []).append(e)
+        # a waiter that has just discarded and then has to sleep for its next token
+        resume = sum(1 for hh in byi.values() for x, y in zip(hh, hh[1:]) if x["d"] == "discard" and y["a"] < y["tok"])
+        return (min(flipped, 1) * 2 + min(resume, 1) * 2 + min(nd, 1) + min(late, 1), flipped + resume, nd + late)
     classes = {}
     for w in walks:
         classes.setdefault((w["disc"], w["ninst"]), []).append(w)
@@ -228,17 +234,33 @@ def run(tier, v):
     th = threading.Thread(target=design_level, args=(thorough, design))
     th.start()
     try:
-        b = vlib.harness_build()
         d = vlib.scratch("c04-timing-")
-        n_scripts, n_lazy, n_random, n_walks, n_confs = (160, 100, 160, 3000, 60) if thorough else (24, 12, 28, 500, 12)
-        scripts, nwalks = scripts_from_tlc(n_walks, n_scripts)
-        if thorough:    # longer scripts (12 tokens, up to 11 s)
-            s12, w12 = scripts_from_tlc(n_walks, 60, first_id=len(scripts) + 1, cfg="Timing_sim12.cfg")
-            scripts += s12
-            nwalks += w12
-        lscripts, lwalks = scripts_from_tlc(n_walks, n_lazy, first_id=len(scripts) + 1, cfg="Timing_simlazy.cfg")
-        scripts += lscripts
-        nwalks += lwalks
+        n_scripts, n_gap, n_lazy, n_random, n_walks, n_confs = (140, 60, 100, 160, 3000, 60) if thorough else (20, 8, 10, 28, 500, 12)
+        # script families (generated in parallel; ids are disjoint ranges):
+        #   sim     prompt machine, 8 tokens            sim12  (thorough) 12 tokens, up to 11 s
+        #   simgap  bursts separated by a pause longer than the window: a waiter that was behind has to sleep again
+        #   simlazy descheduling of 3/6 ticks between Next() and the Waiter's clock reading (injected by the harness)
+        fams = [("Timing_sim.cfg", n_scripts, 1)] + ([("Timing_sim12.cfg", 60, 2001)] if thorough else []) + \
+               [("Timing_simgap.cfg", n_gap, 4001), ("Timing_simlazy.cfg", n_lazy, 6001)]
+        got = {}
+
+        def gen(cfg, n, first):
+            try:
+                got[cfg] = scripts_from_tlc(n_walks, n, first_id=first, cfg=cfg)
+            except BaseException as ex:  # noqa
+                got[cfg] = ex
+        gts = [threading.Thread(target=gen, args=f) for f in fams]
+        [t.start() for t in gts]
+        b = vlib.harness_build()
+        [t.join() for t in gts]
+        scripts, nwalks, lscripts = [], 0, []
+        for cfg, _, _ in fams:
+            if isinstance(got[cfg], BaseException):
+                raise got[cfg]
+            scripts += got[cfg][0]
+            nwalks += got[cfg][1]
+            if cfg == "Timing_simlazy.cfg":
+                lscripts = got[cfg][0]
         cin = os.path.join(d, "scripts.ndjson")
         vlib.write_ndjson(cin, scripts)
         out = os.path.join(d, "trace.ndjson")
@@ -289,7 +311,8 @@ def run(tier, v):
     }
     return "model_checking", cov, [
         "exhaustive TLC bounds: 3 tokens (4 in thorough), gaps {0,1,3,5,30} ticks, responses {0,5,25,35} ticks, 1-2 instances, "
-        "lazy-tick budget 2 with one instance (2 with two instances and 22 with one instance in thorough)",
+        "lazy-tick budget 2 with one instance (2 with two instances and 22 with one instance in thorough); 3 instances x 4 tokens "
+        "(prompt) in thorough",
         "real-time runs: the two one-sided discard rules are judged from stamps that bracket the Waiter's clock reading; "
         "the exact boundary (lateness within the [a,b] interval / +-1 ms of 2 s) is decided at design level only",
         "run-length bound checked with the measured response times and 3 s scheduling slack",
